@@ -12,25 +12,25 @@ TEXT = {
     'C01': ('exploration', 'E1 tcpcl_pair', 'seeded schedule/fault search; FIFO reference model + wire re-decode; bounded liveness',
             'Two real tcpcl agents run under a seeded simulator that decides interleaving, TCP chunking, latency, short writes and '
             'back-pressure; every run is judged against a per-direction FIFO model, on D-Bus signals, popped bodies and an independent '
-            're-decode of the wire. Sampling, not proof: the quantifier (all schedules x sizes) is infinite.', '5/C01'),
+            're-decode of the wire; a share of the runs negotiate keepalives and stall the link or a process for longer than the interval while transfers run. Sampling, not proof: the quantifier (all schedules x sizes) is infinite.', '5/C01'),
     'C04': ('exploration', 'E1 tcpcl_pair', 'seeded schedule/fault search; RFC 9174 grammar automaton over wire taps',
             'Both byte streams of every simulated connection (including runs with termination, timers, stalls, resets, kills) are decoded by an '
             'independent RFC 9174 decoder and checked by a per-endpoint grammar automaton.', '5/C04'),
     'C09': ('exploration', 'E1 tcpcl_pair', 'seeded search over termination/close/fault points; history oracle + bounded liveness',
             'terminate/shutdown/close and peer death (FIN, RST, black-hole) are placed on history triggers inside transfers; oracle checks '
             'completion of in-progress transfers, SESS_TERM count and REPLY flag, reporting of unstarted transfers, and that both contacts '
-            'close within the horizon. A fifth of the runs open two contacts between the same agents and shut the agent down (or terminate one contact) while the other is busy.', '5/C09'),
+            'close within the horizon. A fifth of the runs open two contacts between the same agents and shut the agent down (or terminate one contact, then possibly shut the agent down while that contact is still ending, or before a contact is established) while the other is busy.', '5/C09'),
     'C14': ('exploration', 'E1 tcpcl_pair', 'seeded search on virtual time; negotiated values vs reference decode; timer deadlines on the wire',
             'Keepalive/idle/MRU pairs and traffic times are drawn; the simulator owns the clock so 65535 s timers cost nothing; KEEPALIVE spacing, '
             'idle-timeout SESS_TERM and closing of a silent terminating endpoint are judged on the wire tap against virtual time.', '5/C14'),
     'C18': ('exploration', 'E1 tcpcl_pair + E2 scripted peer + E6 udpcl_pair + E5f full stack', 'seeded interleaving of D-Bus calls with protocol progress; marshalling model + sequential queue/idle model',
             'Every signal emission and method return is marshalled against its declared signature by a model of dbus-python checked against the real '
             'binding; queue, pop, idle and connection-list answers are compared with a sequential model at every call; a scripted peer adds refusals and back-pressure, '
-            'file-based transfers and IPv6 hosts are included.', '5/C18'),
+            'file-based transfers and IPv6 hosts are included; the full-stack engines put real bp agents with the real bp.cla UDPCL / TCPCL adaptors in front of real CL agents (sessions opened on demand, pop on the finished signal, a session ended by a user in between).', '5/C18'),
     'C07': ('exploration', 'E2 tcpcl_stream', 'seeded + windowed-exhaustive search over cut patterns of the TCP stream; reference decode of every delivered prefix',
             'One real agent reads a legal peer stream produced by the independent encoder; the variable is where the stream is cut into socket reads '
             '(single cuts, dribble, message boundaries +-1, random, all patterns over a 10-octet window). After each read the handled messages must '
-            'equal the reference decode of the delivered prefix and the receive buffer the undecoded tail.', '5/C07'),
+            'equal the reference decode of the delivered prefix and the receive buffer the undecoded tail, and the endpoint may not hang up in the middle of a valid stream.', '5/C07'),
     'C15': ('exploration', 'E4 tcpcl_tls', 'seeded search over the configuration x certificate table with handshake-failure fault; independent policy function',
             'Two real agents over the TLS stub with real X.509 certificates; per endpoint the outcome predicted by ref/tls_policy.py (written from the '
             'statement) is compared with wire, state signals, is_secure() and authn fields; decision-cell coverage is reported.', '5/C15'),
@@ -39,7 +39,7 @@ TEXT = {
             'exception, listed message classes draw MSG_REJECT / SESS_TERM / close, no mixed data is delivered, own transfers complete and a later '
             'well-formed transfer is still processed.', '5/C17'),
     'C03': ('fault_enumeration', 'E5 bp_net (source + MITM link + destination)', 'enumeration of single-bit corruption and field rewrites in flight, classified by an independent AAD / MAC construction',
-            'The real source applies BIBs (COSE_Mac0, or COSE_Sign1 with an x5chain from a deterministic test PKI) through its transmit chain (or a foreign source built by ref/bpsec_cose.py covers other AAD scopes); every bit of a window '
+            'The real source applies BIBs (COSE_Mac0, or COSE_Sign1 with an x5chain from a deterministic test PKI) through its transmit chain (or a foreign source built by ref/bpsec_cose.py covers other AAD scopes, or two integrity blocks of two security sources); every bit of a window '
             'of the encoding and every listed field is altered in flight, with CRC fix-up so the change reaches the verifier; the reference decoder classifies each '
             'altered copy as covered / surely-uncovered / other so the oracle is sound in both directions. No schedule or clock matters: the deciding dimension is the corruption fault.', '5/C03'),
     'C05': ('exploration', 'E5 bp_net (source and relay roles, twin node without MTU)', 'seeded search over sizes x MTUs x block sets x policy; reference decoder tiles the fragments',
@@ -50,7 +50,7 @@ TEXT = {
             'interval model says which originals are complete and the probe application must have seen exactly those, once, with the right payload and first-fragment blocks.', '5/C06'),
     'C08': ('fault_enumeration', 'E5 bp_net', 'enumeration of single-bit flips, short bursts and single-octet CBOR-head substitutions inside CRC-protected blocks; independent bitwise CRC',
             'For each generated bundle every bit of a window (whole bundle when small) is flipped and the sequence corrupt copy / clean copy / duplicate is received by one agent; '
-            'a flip inside a CRC-protected block must leave no trace and the clean copy must then be processed exactly once; every transmitted bundle is re-decoded and its CRCs recomputed bitwise.', '5/C08'),
+            '(a tenth of the runs with a payload block above 64 KiB); a flip inside a CRC-protected block must leave no trace and the clean copy must then be processed exactly once; every transmitted bundle is re-decoded and its CRCs recomputed bitwise.', '5/C08'),
     'C10': ('exploration', 'E5 bp_net', 'seeded search over routing tables x receive histories with repeats and look-alikes; seen-set + first-match model',
             'A reference model (identity seen-set, own-source filter, administrative endpoint, first matching route) predicts for every reception the exact probe deliveries and forwards.', '5/C10'),
     'C11': ('exploration', 'E5 bp_net (relay role, clock skew)', 'seeded search over block mixes, numbering, CRC types and relay clock; received vs transmitted bytes through the reference decoder',
@@ -62,13 +62,13 @@ TEXT = {
     'C13': ('exploration', 'E6 dgram_pair (udpcl)', 'seeded search over lengths x MTUs with datagram drop / duplicate / reorder / delay on virtual time; reference datagram decoder + interval model',
             'Two real UDPCL agents and a foreign reference peer exchange bundles over a simulated UDP network whose faults the chooser decides; pacing runs on the virtual clock; wire and receive queues are judged independently.', '5/C13'),
     'C16': ('fault_enumeration', 'E5 bp_net (source + MITM link + destination)', 'as C03 for confidentiality blocks: enumeration of bit flips / field rewrites, independent AES-GCM + AAD',
-            'The real source encrypts through its transmit chain (one or two targets, one or two associations; also foreign bundles with two confidentiality blocks); the wire must hold ciphertext that the independent construction decrypts; every altered copy of ciphertext, tag, IV or '
+            'The real source encrypts through its transmit chain (one or two targets, one or two associations; also foreign bundles with two confidentiality blocks, and status reports that the policy node itself originates); the wire must hold ciphertext that the independent construction decrypts; every altered copy of ciphertext, tag, IV or '
             'authenticated context, or a wrong key, must neither be delivered nor release plaintext.', '5/C16'),
     'C19': ('exploration', 'E5 bp_net', 'seeded search over report flags x report-to x outcomes; reference status-report decoder',
             'All flag combinations and outcomes (deliver, forward, forward with fragmentation, forward that cannot fit or that the convergence layer refuses, delete, no route, security failure, duplicate) are run; every administrative bundle leaving the node is decoded independently and matched to its subject.', '5/C19'),
     'C20': ('exploration', 'E7 dgram_pair (btpu)', 'seeded search over lengths x MTUs with frame reorder / duplicate / delay (beyond the receive timeout) / drop; reference codec + repo codec round trip',
             'Two real BTP-U agents and a foreign peer share a simulated Ethernet; every frame is decoded by the reference codec and by the repository codec and re-encoded; delivery is demanded when each segment '
-            'arrived once with gaps below the documented receive timeout.', '5/C20'),
+            'arrived once with gaps below the documented receive timeout (foreign transfers of one, two and interleaved segments included).', '5/C20'),
 }
 NOTE = ('Trusted base: the simulator models of GLib dispatch, kernel TCP/UDP sockets, D-Bus and TLS (dsim/*, each small and self-tested), '
         'the independent reference codecs under ref/, and shims for third-party modules missing in the sandbox (listed per evidence file). '
@@ -125,7 +125,7 @@ def main():
             dict(name='E6/E7 dgram_pair', path='scenarios/dgram_pair.py', serves_properties=['C13', 'C20', 'C18'],
                  kind_free_text='two real udpcl or btpu agents plus a foreign reference peer on a simulated datagram network'),
             dict(name='E5f full_stack', path='scenarios/full_stack.py', serves_properties=['C18'],
-                 kind_free_text='on each of two hosts a real bp agent, the real bp.cla UDPCL adaptor and a real udpcl agent joined by the simulated D-Bus'),
+                 kind_free_text='on each of two hosts a real bp agent, the real bp.cla UDPCL or TCPCL adaptor and a real udpcl or tcpcl agent joined by the simulated D-Bus; hosts joined by simulated UDP / TCP'),
         ],
         checks=checks,
         not_applicable=na,
